@@ -205,6 +205,12 @@ def differential(ctx, impl, wd, stats, nprog, nextra, layout_cases):
                               dict(script=ref_sess.text(), nprocs=1, failures=ref_fails[:5]), key=key)
             stats['oracle_failures'] += 1
             continue
+        # does the plain rank-count baseline (same np, everything else default) already differ?
+        np_fail = {}
+        for (m, r, ob, fails) in obs[1:]:
+            cfg = m[3]
+            if G.cfg_diff(cfg, ref_cfg) == ['np']:
+                np_fail[cfg['np']] = bool(fails) or ob is None or bool(G.compare(p, ref_ob, ob))
         for (m, r, ob, fails) in obs[1:]:
             _, j, _, cfg, sess, trace = m
             diffs = G.compare(p, ref_ob, ob) if ob is not None else []
@@ -218,6 +224,8 @@ def differential(ctx, impl, wd, stats, nprog, nextra, layout_cases):
             else:
                 w, detail = diffs[0]
             key = classify(cfg, ref_cfg, sess, w)
+            if np_fail.get(cfg['np']) and not aggr_active(cfg):
+                key = 'nprocs=%d:%s' % (cfg['np'], w)      # the rank count alone already does it
             if key.startswith('multi(') and key not in reported:
                 key = attribute(impl, wd, p, cfg, ref_cfg, ref_ob, w, m[0], j) or key
             if key in reported:
